@@ -1,7 +1,7 @@
 (* C14: without a failing allocation nobody is ever told NoMemory - no handler
    stages that error or fails with it.  (Used to state the retry clause
    without a side condition.) *)
-From DV Require Import Spec.OomSpec Proofs.OomGeneric Proofs.OomLists Proofs.OomMain.
+From DV Require Import Spec.OomSpec Proofs.OomGeneric Proofs.OomLists Proofs.OomInv Proofs.OomMain.
 Local Open Scope N_scope.
 
 Definition not_oom (o : out) : Prop := snd o <> MError ENoMemory.
